@@ -95,11 +95,14 @@ def report(chk, proof_ok, divs, errs, findings, suite='plumbing'):
 
     A broken proof obligation or correspondence without a failing input is
     reported as a violation ending in no-failing-input-found."""
+    n0 = len(chk.violations)
     for key, text, payload in findings:
         chk.violation(key, text, payload, True)
+    found_new = len(chk.violations) > n0       # a failing input that is not a recorded finding
     broken = []
     if not proof_ok:
         broken += ['lean: ' + str(o[0]) + ' ' + str(o[2]) for o in chk.broken_obligations()]
+    lean_broken = list(broken)
     if divs:
         d = divs[0]
         try:
@@ -116,12 +119,14 @@ def report(chk, proof_ok, divs, errs, findings, suite='plumbing'):
         broken.append('correspondence suite %s: the real code raised %s' % (suite, e['exception'][:300]))
         if payload_case is None:
             payload_case = e['case'].describe()
-    if broken and not findings and not chk.known_hit:
+    # a broken Lean obligation is never explained by a recorded finding (the recorded findings are
+    # there on the unchanged tree, where every obligation checks); a correspondence divergence may be
+    if (lean_broken and not found_new) or (broken and not found_new and not findings and not chk.known_hit):
         chk.violation('unproved', '; '.join(broken)[:1500], {
             'no_longer_checks': broken, 'case': payload_case,
             'how_to_replay': './check %s --replay <this file>' % chk.prop}, False)
-    elif broken and not findings and chk.known_hit:
-        chk.notes.append('correspondence/proof breakage attributed to known findings: ' + '; '.join(broken)[:500])
+    elif broken and not found_new and chk.known_hit:
+        chk.notes.append('correspondence breakage attributed to known findings: ' + '; '.join(broken)[:500])
 
 
 def replay_case(path):
